@@ -65,6 +65,16 @@ def _build(case):
             ifs.append(iface)
         else:
             ifs.append(I.DBusInterface(spec['name'], *parts, noRegister=True))
+    if len(case['path']) % 2 and ifs:
+        # the application once tried to add members the library refuses (an unbalanced signature, something that is no
+        # Method at all), caught the error and carried on: a refused addition leaves the definition as it was
+        target = ifs[len(case['path']) % len(ifs)]
+        for bad in (lambda: target.addMethod(I.Method('Refused__', 'a{sv')), lambda: target.addMethod(I.Method('Refused__', 's', '(i')),
+                    lambda: target.addSignal(I.Signal('RefusedSig__', 'a')), lambda: target.addMethod(object())):
+            try:
+                bad()
+            except Exception:
+                pass
     k = case.get('split', len(ifs))
     Base = type('IBase', (O.DBusObject,), {'dbusInterfaces': ifs[:k]})
     ns = {'dbusInterfaces': ifs[k:]} if ifs[k:] else {}
